@@ -4,6 +4,7 @@ package treekit
 
 import (
 	"fmt"
+	"math"
 	"sort"
 
 	"github.com/bradenaw/juniper/container/tree"
@@ -107,7 +108,7 @@ var Canon = map[string]func(int) int{
 	"parity":    func(a int) int { return a },
 }
 var OrderNames = []string{"nat", "rev", "coarse4", "revcoarse", "parity"}
-var Flavors = []string{"less", "cmp", "cmpmag"}
+var Flavors = []string{"less", "cmp", "cmpmag", "cmpext"}
 
 func Coarse(order string) bool { return order == "coarse4" || order == "revcoarse" }
 
@@ -194,7 +195,7 @@ type Config struct {
 	Set    bool   `json:"set,omitempty"`
 	Keys   string `json:"keys"`   // int | string | struct
 	Order  string `json:"order"`  // see Orders
-	Flavor string `json:"flavor"` // less | cmp | cmpmag
+	Flavor string `json:"flavor"` // less | cmp | cmpmag | cmpext
 }
 
 // New builds the collection for cfg; calls counts every comparator invocation.
@@ -215,11 +216,20 @@ func newColl[K any](kk KeyKind[K], cfg Config, base func(a, b int) int, count fu
 			return setColl[K]{tree.NewSet[K](less)}
 		}
 		return mapColl[K]{tree.NewMap[K, *Val](less)}
-	case "cmp", "cmpmag":
+	case "cmp", "cmpmag", "cmpext":
 		mag := cfg.Flavor == "cmpmag"
 		cmp := func(a, b K) int {
 			count()
 			c := base(kk.ord(a), kk.ord(b))
+			if cfg.Flavor == "cmpext" { // the two results whose negation / difference overflows
+				switch {
+				case c < 0:
+					return math.MinInt
+				case c > 0:
+					return math.MaxInt
+				}
+				return 0
+			}
 			if mag {
 				// only the sign may matter
 				d := kk.ord(a) - kk.ord(b)
